@@ -174,6 +174,7 @@ class Program:
         self.field_classes = {}     # (root class, field) -> class of the object the constructor leaves there
         self.nonnull = {}           # (root class, field) -> the attribute is never None once the object is constructed
         self.back_refs = {}         # (root class, owner.part) -> ("outer", prefix) when the part always denotes the owner
+        self.stream_steps = {}      # id(generator definition) -> one-element function of an endless stream, or None
         self.next_of = {}           # iter(S) term -> element, while a loop walks S through an iterator object
         self.funcrefs = {}          # key -> (class, definition, decorator level): what a decorator receives
         self.wrappers = {}          # key -> closure a user decorator returned for a definition
@@ -1663,10 +1664,55 @@ class Summariser:
             walk = self._iterator_object_loop(st, events)
             if walk:
                 return
+            by_index = self._index_walk(st, events)
+            if by_index is not None:
+                return self.loop(by_index, events)
         if not is_while:
             it = self.iterated(self.expr(st.iter, events), events, st.iter)
             if getattr(st, "_next_of", None) is not None:
                 self.prog.next_of[st._next_of] = elem_val
+            if it[0] == "fn" and it[1] == "zip" and len(it[2]) >= 2 and isinstance(st.target, ast.Tuple) and \
+                    len(st.target.elts) == len(it[2]) and not st.orelse and \
+                    any(self._stream_step(a) is not None for a in it[2][1:]) and self._stream_step(it[2][0]) is None:
+                # zip(A, stream): A is asked first, so the stream is advanced exactly once per element of A
+                keep = [(t, a) for t, a in zip(st.target.elts, it[2]) if self._stream_step(a) is None]
+                draws = []
+                for t, a in zip(st.target.elts, it[2]):
+                    if self._stream_step(a) is not None:
+                        nx = ast.Assign(targets=[t], value=ast.Call(func=ast.Name(id="next", ctx=ast.Load()),
+                                                                    args=[_Term(a, st.iter)], keywords=[]), type_comment=None)
+                        ast.copy_location(nx, st)
+                        ast.fix_missing_locations(nx)
+                        for n in ast.walk(nx):
+                            if getattr(n, "end_lineno", None) is None:
+                                n.end_lineno = st.lineno
+                        draws.append(nx)
+                if "next" not in self.env and len(keep) >= 1:
+                    if len(keep) == 1:
+                        target, source = keep[0][0], keep[0][1]
+                    else:
+                        target = ast.Tuple(elts=[t for t, _ in keep], ctx=ast.Store())
+                        source = ("fn", "zip", tuple(a for _, a in keep))
+                    loop = ast.For(target=target, iter=_Term(source, st.iter), body=draws + list(st.body), orelse=[], type_comment=None)
+                    ast.copy_location(loop, st)
+                    loop.end_lineno = getattr(st, "end_lineno", st.lineno)
+                    return self.loop(loop, events)
+            if it[0] == "gate" and not st.orelse and not isinstance(st.iter, _Term) and _is_bool(it[1]) and \
+                    it[2][0] in ("tuple", "comp", "new") and it[3][0] in ("tuple", "comp", "new"):
+                # a walk over one of two displays chosen by a condition: each display is walked under its condition
+                arms = []
+                for alt in (it[2], it[3]):
+                    loop = ast.For(target=st.target, iter=_Term(alt, st.iter), body=st.body, orelse=[], type_comment=None)
+                    ast.copy_location(loop, st)
+                    loop.end_lineno = getattr(st, "end_lineno", st.lineno)
+                    loop._fuse = True
+                    arms.append(loop)
+                branch = ast.If(test=_Term(it[1], st.iter), body=[arms[0]], orelse=[arms[1]])
+                ast.copy_location(branch, st)
+                branch.end_lineno = getattr(st, "end_lineno", st.lineno)
+                ev, term, ret = self.block([branch])
+                events.extend(ev)
+                return
             if self._unrollable(st, it):
                 return self.unroll(st, it, events)
             if it[0] == "fn" and it[1] == "zip" and len(it[2]) == 2 and it[2][1] in self.prog.list_models:
@@ -1677,7 +1723,7 @@ class Summariser:
                     elem_val = ("tuple", (("elem", lid), subst(v1, {("elem", l1): ("elem", lid)})))
                     it = it[2][0]
             # for x in (f(y) for y in ys): ...   is   for y in ys: x = f(y); ...   when f(y) has no effects
-            while isinstance(st.iter, (ast.GeneratorExp, ast.ListComp)) and \
+            while (isinstance(st.iter, (ast.GeneratorExp, ast.ListComp)) or getattr(st, "_fuse", False)) and \
                     it[0] == "comp" and it[1] in ("gen", "list") and it[4] is None and not it[6] and it[5][0] != "flat" \
                     and not any(isinstance(x, Loop) and x.lid == it[2] for x in events):
                 elem_val = subst(elem_val, {("elem", lid): subst(it[5], {("elem", it[2]): ("elem", lid)})})
@@ -1798,6 +1844,66 @@ class Summariser:
         if st.orelse:
             raise Unsupported(f"for-else at {self.module.path}:{st.lineno}")
 
+    def _index_walk(self, st, events):
+        """`for i in IDX: x = SEQ[i]; rest` with i used for nothing else  ->  `for x in [SEQ[i] for i in IDX]: rest`
+        (also under enumerate); SEQ is an attribute of self or a name that the loop does not rebind or resize."""
+        tgt, numbered = st.target, False
+        if isinstance(tgt, ast.Tuple) and len(tgt.elts) == 2 and all(isinstance(x, ast.Name) for x in tgt.elts) and \
+                isinstance(st.iter, ast.Call) and isinstance(st.iter.func, ast.Name) and st.iter.func.id == "enumerate" and \
+                "enumerate" not in self.env and st.iter.args:
+            idx, numbered = tgt.elts[1].id, True
+        elif isinstance(tgt, ast.Name):
+            idx = tgt.id
+        else:
+            return None
+        if len(st.body) < 2:
+            return None
+        first = st.body[0]
+        if not (isinstance(first, ast.Assign) and len(first.targets) == 1 and isinstance(first.targets[0], ast.Name) and
+                isinstance(first.value, ast.Subscript) and isinstance(first.value.slice, ast.Name) and
+                first.value.slice.id == idx and first.targets[0].id != idx):
+            return None
+        seq = first.value.value
+        if isinstance(seq, ast.Attribute) and self.is_self(seq.value):
+            def same(n):
+                return isinstance(n, ast.Attribute) and n.attr == seq.attr and self.is_self(n.value)
+        elif isinstance(seq, ast.Name):
+            def same(n):
+                return isinstance(n, ast.Name) and n.id == seq.id
+        else:
+            return None
+        end = getattr(st, "end_lineno", st.lineno)
+        for n in ast.walk(self.fn):
+            if isinstance(n, ast.Name) and n.id == idx and n is not first.value.slice and \
+                    (st.lineno <= n.lineno <= end and n not in ast.walk(tgt) or n.lineno > end):
+                if isinstance(n.ctx, ast.Load) or st.lineno <= n.lineno <= end:
+                    return None
+        for b in st.body[1:]:
+            for n in ast.walk(b):
+                if same(n) and (isinstance(n.ctx, (ast.Store, ast.Del))):
+                    return None
+                if isinstance(n, ast.Call) and isinstance(n.func, ast.Attribute) and same(n.func.value) and n.func.attr in MUTATORS:
+                    return None
+                if isinstance(n, ast.Subscript) and isinstance(n.ctx, (ast.Store, ast.Del)) and same(n.value):
+                    return None
+        probe = []
+        whole = self.expr(st.iter, probe)
+        source = whole[2][0] if numbered and whole[0] == "fn" and whole[1] == "enumerate" and whole[2] else whole
+        if numbered and source is whole:
+            return None
+        if not (source[0] == "draw" or (source[0] == "fn" and source[1] == "range")):
+            return None             # only index orders: a random order of positions or a range of positions
+        events.extend(probe)
+        lid2 = self.ids.next()
+        picked = ("comp", "list", lid2, source, None, ("sub", self.expr(seq, events), ("elem", lid2)), ())
+        new_iter = ("fn", "enumerate", (picked,) + tuple(whole[2][1:])) if numbered else picked
+        new_tgt = ast.Tuple(elts=[tgt.elts[0], first.targets[0]], ctx=ast.Store()) if numbered else first.targets[0]
+        loop = ast.For(target=new_tgt, iter=_Term(new_iter, st.iter), body=list(st.body[1:]), orelse=[], type_comment=None)
+        ast.copy_location(loop, st)
+        loop.end_lineno = end
+        ast.fix_missing_locations(new_tgt)
+        return loop
+
     def _iterator_object_loop(self, st, events):
         """`for T in obj` with obj a collaborator object of a private iterator class (`__iter__` returns self) whose
         `__next__` advances exactly one underlying iterator `self.F = iter(S)` and stops only when that one stops:
@@ -1878,7 +1984,18 @@ class Summariser:
             return None
         fr["wanted"].add(base)
         v = fr["facts_in"].get(base)
-        if v is None or base not in fr["done"] or fr["enum_start"] is None:
+        if v is None or base not in fr["done"]:
+            return None
+        if idx[0] == "const" and idx[1] in (-1, -2) and not isinstance(idx[1], bool):
+            # counted from the end right after this iteration's append: the new element / the one before it
+            if idx[1] == -1:
+                return v
+            if len(base[3]) >= 1:
+                name = f"#prev:{len(fr['prev'])}" if base not in fr["prev"] else fr["prev"][base][0]
+                fr["prev"].setdefault(base, (name, base[3][-1], v))
+                return ("mu", fr["lid"], fr["prev"][base][0])
+            return None
+        if fr["enum_start"] is None:
             return None
         k = ("tget", ("elem", fr["lid"]), 0)
 
@@ -2517,6 +2634,10 @@ class Summariser:
                                                  "next": "__next__"}[f.id], events, e)
                     if got is not None:
                         return got
+                if f.id == "next" and len(args) == 1 and not kwargs and args[0][0] == "genobj":
+                    got = self._stream_next(args[0], events, e)
+                    if got is not None:
+                        return got
                 if f.id == "next" and len(args) == 1 and not kwargs and args[0] in self.prog.next_of:
                     return self.prog.next_of[args[0]]      # the element the enclosing walk is at
                 return ("fn", f.id, args + tuple(("kw",) + kv for kv in kwargs))
@@ -2565,6 +2686,9 @@ class Summariser:
         if isinstance(f, ast.Attribute):
             recv = self._expr(f.value, events)
             got = self._record_method(recv, f.attr, args, kwargs, events, e)
+            if got is not None:
+                return got
+            got = self._object_method(recv, f.attr, args, kwargs, events, e)
             if got is not None:
                 return got
             if f.attr in SET_ALGEBRA and len(args) == 1 and not kwargs:
@@ -2756,6 +2880,63 @@ class Summariser:
                       dict(params), ("const", None))
         events.append(inl)
         return sub, inl
+
+    def _stream_step(self, g):
+        """For a generator object of an endless stream (`def gen(...): while True: ...; yield E`): the function that
+        computes one element (the loop body with `return E` for the yield), its module / class and the bound
+        arguments; None for any other generator."""
+        if not (isinstance(g, tuple) and g and g[0] == "genobj" and g[1] in self.prog.genobjs):
+            return None
+        call, params = self.prog.genobjs[g[1]]
+        target = self._callee_def(call)
+        if target is None:
+            return None
+        c, module, fn, is_method = target
+        cache = self.prog.stream_steps
+        if id(fn) not in cache:
+            cache[id(fn)] = None
+            body = [x for x in fn.body if not (isinstance(x, ast.Expr) and isinstance(x.value, ast.Constant))]
+            if len(body) == 1 and isinstance(body[0], ast.While) and isinstance(body[0].test, ast.Constant) and \
+                    body[0].test.value is True and not body[0].orelse and body[0].body:
+                inner = body[0].body
+                last = inner[-1]
+                jumps = [n for x in inner for n in ast.walk(x)
+                         if isinstance(n, (ast.Yield, ast.YieldFrom, ast.Break, ast.Continue, ast.Return))]
+                if isinstance(last, ast.Expr) and isinstance(last.value, ast.Yield) and jumps == [last.value]:
+                    ret = ast.copy_location(ast.Return(value=last.value.value), last)
+                    step = ast.FunctionDef(name=fn.name + "__step", args=fn.args, body=list(inner[:-1]) + [ret],
+                                           decorator_list=[], returns=None, type_comment=None)
+                    ast.copy_location(step, fn)
+                    step.end_lineno = getattr(fn, "end_lineno", fn.lineno)
+                    assigned = {n.id for x in inner for n in ast.walk(x) if isinstance(n, ast.Name) and isinstance(n.ctx, ast.Store)}
+                    loaded_first = {a.arg for a in fn.args.args + fn.args.kwonlyargs}
+                    if not (assigned & loaded_first) and not any(
+                            isinstance(n, ast.Attribute) and isinstance(n.ctx, ast.Store) for x in inner for n in ast.walk(x)):
+                        # nothing is carried from one element to the next: every element is computed alike
+                        self.prog.fn_module[id(step)] = module
+                        cache[id(fn)] = step
+        step = cache[id(fn)]
+        if step is None:
+            return None
+        return step, module, (self.cls if is_method else None), c, params
+
+    def _stream_next(self, g, events, e):
+        got = self._stream_step(g)
+        if got is None:
+            return None
+        step, module, cls, owner, params = got
+        if self.depth >= self.MAX_DEPTH:
+            raise Unsupported(f"inlining bound reached at {self.module.path}:{e.lineno}")
+        sub = Summariser(self.prog, module, cls, step, params=dict(params), fields=self.fields, depth=self.depth + 1,
+                         ids=self.ids, stack=self.stack + (f"{e.lineno}:{e.col_offset}",), loops=self.loops,
+                         owner=owner, fnstack=self.fnstack)
+        sub.facts = list(self.facts)
+        sub.base_facts = len(sub.facts)
+        ev, term, ret = sub.block(step.body)
+        self.fields = sub.exit_fields(term)
+        rv = ret if ret is not None else ("const", None)
+        events.append(Inlined(f"{module.name}.{step.name}", ev, e.lineno, None, step, dict(params), rv))
+        return rv
 
     def consume_genobj(self, g, kind, events, e):
         """dict(g) / list(g) / sum(g) ... for a generator object g: the generator body runs here."""
@@ -3044,6 +3225,47 @@ class Summariser:
         finally:
             self.cls, self.field_prefix, self._owner_key = saved
 
+    def _object_method(self, recv, meth, args, kwargs, events, e, depth=0):
+        """obj.meth(...) where obj is a freshly built instance of a private package class that was not given a name
+        (`_Helper(x).run()`), or a selection between such instances (a strategy object picked by a condition): the
+        constructor and the method are inlined; None if this is not such a call."""
+        if depth > 3:
+            return None
+        if recv[0] == "new" and self._private_class(recv) is not None:
+            K = self._private_class(recv)
+            c, m = self.prog.find_method(K, meth)
+            if m is None or self._yields(m):
+                return None
+            prefix = f"%anon{e.lineno}:{e.col_offset}:{len(self.stack)}:{recv[1][1]}:{recv[1][2]}"
+            if not self._adopt(prefix, recv, events, e):
+                return None
+            return self._inline_owned(K, prefix, c, m, tuple(args), dict(kwargs), events, e)
+        if recv[0] == "gate" and _is_bool(recv[1]):
+            def candidate(t):
+                return (t[0] == "new" and self._private_class(t) is not None and
+                        self.prog.find_method(self._private_class(t), meth)[1] is not None) or \
+                    (t[0] == "gate" and candidate(t[2]) and candidate(t[3]))
+            if not (candidate(recv[2]) and candidate(recv[3])):
+                return None
+            cond = recv[1]
+            env0, f0 = dict(self.env), dict(self.fields)
+            ev_t, ev_e = [], []
+            self.facts.append(cond)
+            a = self._object_method(recv[2], meth, args, kwargs, ev_t, e, depth + 1)
+            self.facts.pop()
+            f_t = self.fields
+            self.env, self.fields = dict(env0), dict(f0)
+            self.facts.append(negate(cond))
+            b = self._object_method(recv[3], meth, args, kwargs, ev_e, e, depth + 1) if a is not None else None
+            self.facts.pop()
+            if a is None or b is None:
+                self.env, self.fields = env0, f0
+                return None
+            events.append(If(cond, ev_t, ev_e, e.lineno, False))
+            self.fields = self.merge(cond, f_t, self.fields, field=True)
+            return gate(cond, a, b)
+        return None
+
     def _private_class(self, val):
         """The private package class (not an immutable record) a `new` term instantiates, else None."""
         if not (val[0] == "new" and isinstance(val[2], str) and "." in val[2]):
@@ -3052,7 +3274,8 @@ class Summariser:
         if not name.startswith("_") or mod not in self.prog.modules or name not in self.prog.modules[mod].classes:
             return None
         K = self.prog.modules[mod].classes[name]
-        if K.record_fields is not None or self.prog.ext_bases(K):
+        if K.record_fields is not None or \
+                any(str(b) not in ("abc.ABC", "ABC", "object", "typing.Generic", "Generic") for b in self.prog.ext_bases(K)):
             return None
         return K
 
